@@ -194,7 +194,12 @@ def visitor_forwards(ast):
                     targets.append(short(params_of(d)[0]))
                 else:
                     targets.append("?")
-        stmts = [c for c in children(body_of(n))]
+        # statements that do something: a declaration of a local reference / pointer that calls nothing (`const Node& node = r;`) only
+        # names the upcast and is not counted
+        def inert(st):
+            return st.get("kind") == "DeclStmt" and not any(m.get("kind") in ("CXXMemberCallExpr", "CallExpr", "CXXOperatorCallExpr", "CXXConstructExpr", "CXXThrowExpr")
+                                                           for m, _ in walk(st))
+        stmts = [c for c in children(body_of(n)) if not inert(c)]
         out[par] = {"targets": targets, "stmts": len(stmts)}
     return out
 
@@ -405,6 +410,16 @@ def store_facts(ast):
             if rec and rec[0].get("bases"):
                 out["bases"][tname] = [b["type"]["qualType"] for b in rec[0]["bases"]]
                 break
+    # where the owning red-black container takes the memory of its nodes from: its base classes
+    out["tree_bases"] = []
+    for n, p in ast.find("ClassTemplateDecl", "container"):
+        names = [x for x in p if isinstance(x, str)]
+        if "rb_tree" not in names:
+            continue
+        rec = children(n, "CXXRecordDecl")
+        if rec and rec[0].get("bases"):
+            out["tree_bases"] = [b["type"]["qualType"] for b in rec[0]["bases"]]
+            break
     # how the stores grow: member functions of the standard-container base that each store template calls
     out["growth"] = {}
     for tname in ("stable_farm", "obj_sequence", "obj_list", "ref_sequence"):
